@@ -61,6 +61,8 @@ class SolverAnalysis:
         site = "src/bldfm/solver.py::steady_state_transport_solver"
         out = []
         for key, (S, res) in self.runs.items():
+            if key[4] not in ("single", "double"):
+                continue  # a run made to see that an inadmissible precision is rejected
             if res and all(r.kind == "raise" for r in res) and not any(d[0].startswith("unknown test") for r in res for d in r.path):
                 out.append(req_ob(rule, site, "the solver returns for admissible arguments", False,
                                   detail="every path raises (footprint=%s analytic=%s %s mode): %s" % (key[0], key[1], key[2], "; ".join(sorted({str(r.raise_desc)[:80] for r in res}))[:240]), key={"clause": "returns"}))
